@@ -46,6 +46,12 @@ pub fn parse_max_length(
     max_len: usize,
     field_name: &str,
 ) -> Result<String, ParseError> {
+    // "16x" reads "one to sixteen characters": a mandatory component is never empty
+    if input.is_empty() {
+        return Err(ParseError::InvalidFormat {
+            message: format!("{} must not be empty", field_name),
+        });
+    }
     if input.len() > max_len {
         return Err(ParseError::InvalidFormat {
             message: format!(
